@@ -697,14 +697,17 @@ def materialize(world, root: str, schema_partition=None, queries_partition=None,
                 qname = single_file_names[1] if single_file_names else "queries.graphql"
                 cfg["queries_path"] = qname
                 writes.append((qname, queries_of(world)))
+        # (the directory generated code goes to is the project's choice: "out" unless the world names another)
+        tdir = world.get("target_dir", "out")
         if world.get("default_target_path"):
             cfg.pop("target_package_path", None)          # the documented default: the working directory
         else:
-            cfg.setdefault("target_package_path", "out")
-        os.makedirs(os.path.join(root, "out"), exist_ok=True)
+            cfg.setdefault("target_package_path", tdir)
+        os.makedirs(os.path.join(root, tdir), exist_ok=True)
     else:
-        cfg["target_file_path"] = os.path.join("out", cfg.get("target_file_path", "schema.py"))
-        os.makedirs(os.path.join(root, "out"), exist_ok=True)
+        tdir = world.get("target_dir", "out")
+        cfg["target_file_path"] = os.path.join(tdir, cfg.get("target_file_path", "schema.py"))
+        os.makedirs(os.path.join(root, tdir), exist_ok=True)
     for rel, text in world.get("aux_files", {}).items():
         writes.append((rel, text))
     if extra_cfg:
